@@ -587,47 +587,47 @@ func (h *httpWorld) runCase(c httpCase) {
 // malformed: hand-written requests that are not even well-formed HTTP; each must still get a status line.
 func (h *httpWorld) malformed(i int) {
 	r := h.run.Rand(22, h.batch, uint64(h.pass), uint64(i))
-	reqs := []string{
-		"GET /galene-api/v0/.stats HTTP/1.1\r\nHost: x\r\nHost: y\r\n\r\n",
-		"GET /group/hx/ HTTP/9.9\r\nHost: x\r\n\r\n",
-		"GET  /group/hx/  HTTP/1.1\r\nHost: x\r\n\r\n",
-		"GET /group/hx/\r\n\r\n",
-		"get /group/hx/ http/1.1\r\nHost: x\r\n\r\n",
-		"GET /group/h\x00x/ HTTP/1.1\r\nHost: x\r\n\r\n",
-		"GET http://other.example/galene-api/v0/.groups/ HTTP/1.1\r\nHost: x\r\n\r\n",
-		"GET * HTTP/1.1\r\nHost: x\r\n\r\n",
-		"OPTIONS * HTTP/1.1\r\nHost: x\r\n\r\n",
-		"CONNECT galene.test:443 HTTP/1.1\r\nHost: galene.test:443\r\n\r\n",
-		"CONNECT /galene-api/v0/.groups/hx/../../../.stats HTTP/1.1\r\nHost: x\r\nAuthorization: " + h.srv.AdminAuth()["Authorization"] + "\r\n\r\n",
-		"CONNECT /group/../recordings/hx/ HTTP/1.1\r\nHost: x\r\n\r\n",
-		"CONNECT /recordings/../../../etc/passwd HTTP/1.1\r\nHost: x\r\n\r\n",
-		"CONNECT /galene-api/v0/.groups//.users/ HTTP/1.1\r\nHost: x\r\nAuthorization: " + h.srv.AdminAuth()["Authorization"] + "\r\n\r\n",
-		"CONNECT /galene-api/v0/.groups/hx/.tokens HTTP/1.1\r\nHost: x\r\nAuthorization: " + h.srv.AdminAuth()["Authorization"] + "\r\n\r\n",
-		"GET /galene-api/v0/.groups/hx HTTP/1.1\r\nHost: x\r\nAuthorization: Basic\r\n\r\n",
-		"PUT /galene-api/v0/.groups/hx HTTP/1.1\r\nHost: x\r\nTransfer-Encoding: chunked\r\nContent-Type: application/json\r\nAuthorization: " + h.srv.AdminAuth()["Authorization"] + "\r\n\r\nZZZ\r\n{}\r\n0\r\n\r\n",
-		"PUT /galene-api/v0/.groups/hx HTTP/1.1\r\nHost: x\r\nTransfer-Encoding: chunked\r\nContent-Type: application/json\r\nAuthorization: " + h.srv.AdminAuth()["Authorization"] + "\r\n\r\n2\r\n{}\r\n0\r\n\r\n",
-		"POST /group/hx/.whip HTTP/1.1\r\nHost: x\r\nContent-Type: application/sdp\r\nContent-Length: 0\r\n\r\n",
-		"POST /group/hx/.whip HTTP/1.1\r\nHost: x\r\nContent-Type: application/sdp\r\nContent-Length: -5\r\n\r\n",
-		"POST /group/hx/.whip HTTP/1.1\r\nHost: x\r\nContent-Type: application/sdp\r\nContent-Length: 99999999999999999999\r\n\r\n",
-		"GET /ws HTTP/1.1\r\nHost: galene.test\r\nUpgrade: websocket\r\nConnection: Upgrade\r\nSec-WebSocket-Version: 13\r\nSec-WebSocket-Key: dGhlIHNhbXBsZSBub25jZQ==\r\n\r\n",
-		"GET /ws HTTP/1.1\r\nHost: galene.test\r\nUpgrade: websocket\r\nConnection: Upgrade\r\nSec-WebSocket-Version: 13\r\nSec-WebSocket-Key: dGhlIHNhbXBsZSBub25jZQ==\r\nOrigin: https://evil.example\r\n\r\n",
-		"GET /ws HTTP/1.0\r\nUpgrade: websocket\r\nConnection: Upgrade\r\n\r\n",
-		"GET /ws HTTP/1.1\r\nHost: galene.test\r\nUpgrade: websocket\r\nConnection: Upgrade\r\nSec-WebSocket-Version: 13\r\nSec-WebSocket-Key: dGhlIHNhbXBsZSBub25jZQ==\r\nContent-Length: 5\r\n\r\nhello",
-		"POST /ws HTTP/1.1\r\nHost: galene.test\r\nUpgrade: websocket\r\nConnection: Upgrade\r\nSec-WebSocket-Version: 13\r\nSec-WebSocket-Key: dGhlIHNhbXBsZSBub25jZQ==\r\nContent-Length: 5\r\n\r\nhello",
-		"GET /" + strings.Repeat("a/", 4000) + " HTTP/1.1\r\nHost: x\r\n\r\n",
-		"GET / HTTP/1.1\r\nHost: x\r\n" + strings.Repeat("X-H: v\r\n", 40000) + "\r\n",
-		"GET /index.html HTTP/1.1\r\nHost: x\r\nIf-Modified-Since: yesterday\r\nIf-None-Match: \"\x01\"\r\nRange: bytes=0-,0-,0-,0-,0-,0-,0-,0-,0-,0-,0-,0-\r\n\r\n",
-		"\x16\x03\x01\x02\x00\x01\x00\x01\xfc\x03\x03" + strings.Repeat("\x00", 40) + "\r\n\r\n",
-		"\r\n\r\nGET / HTTP/1.1\r\nHost: x\r\n\r\n",
-		"GET /%zz HTTP/1.1\r\nHost: x\r\n\r\n",
-		"GET /group/%2e%2e/%2e%2e/ HTTP/1.1\r\nHost: x\r\n\r\n",
-		"HEAD /recordings/hx/rec1.webm HTTP/1.1\r\nHost: x\r\nAuthorization: " + vsrv.Basic("recorder", "pw-rec")["Authorization"] + "\r\nRange: bytes=3-1\r\n\r\n",
-		"DELETE /group/whipg/x/.whip/ HTTP/1.1\r\nHost: x\r\n\r\n",
-		"PATCH /group/whipg/x/.whip// HTTP/1.1\r\nHost: x\r\nContent-Length: 0\r\n\r\n",
+	reqs := []struct{ name, req string }{
+		{"duplicate-host", "GET /galene-api/v0/.stats HTTP/1.1\r\nHost: x\r\nHost: y\r\n\r\n"},
+		{"http-9.9", "GET /group/hx/ HTTP/9.9\r\nHost: x\r\n\r\n"},
+		{"double-spaces", "GET  /group/hx/  HTTP/1.1\r\nHost: x\r\n\r\n"},
+		{"http-0.9", "GET /group/hx/\r\n\r\n"},
+		{"lowercase-method", "get /group/hx/ http/1.1\r\nHost: x\r\n\r\n"},
+		{"nul-in-path", "GET /group/h\x00x/ HTTP/1.1\r\nHost: x\r\n\r\n"},
+		{"absolute-uri", "GET http://other.example/galene-api/v0/.groups/ HTTP/1.1\r\nHost: x\r\n\r\n"},
+		{"asterisk-get", "GET * HTTP/1.1\r\nHost: x\r\n\r\n"},
+		{"asterisk-options", "OPTIONS * HTTP/1.1\r\nHost: x\r\n\r\n"},
+		{"connect-authority", "CONNECT galene.test:443 HTTP/1.1\r\nHost: galene.test:443\r\n\r\n"},
+		{"connect-dotdot-api", "CONNECT /galene-api/v0/.groups/hx/../../../.stats HTTP/1.1\r\nHost: x\r\nAuthorization: " + h.srv.AdminAuth()["Authorization"] + "\r\n\r\n"},
+		{"connect-dotdot-group", "CONNECT /group/../recordings/hx/ HTTP/1.1\r\nHost: x\r\n\r\n"},
+		{"connect-dotdot-recordings", "CONNECT /recordings/../../../etc/passwd HTTP/1.1\r\nHost: x\r\n\r\n"},
+		{"connect-empty-group", "CONNECT /galene-api/v0/.groups//.users/ HTTP/1.1\r\nHost: x\r\nAuthorization: " + h.srv.AdminAuth()["Authorization"] + "\r\n\r\n"},
+		{"connect-tokens-noslash", "CONNECT /galene-api/v0/.groups/hx/.tokens HTTP/1.1\r\nHost: x\r\nAuthorization: " + h.srv.AdminAuth()["Authorization"] + "\r\n\r\n"},
+		{"basic-without-value", "GET /galene-api/v0/.groups/hx HTTP/1.1\r\nHost: x\r\nAuthorization: Basic\r\n\r\n"},
+		{"chunked-bad-size", "PUT /galene-api/v0/.groups/hx HTTP/1.1\r\nHost: x\r\nTransfer-Encoding: chunked\r\nContent-Type: application/json\r\nAuthorization: " + h.srv.AdminAuth()["Authorization"] + "\r\n\r\nZZZ\r\n{}\r\n0\r\n\r\n"},
+		{"chunked-good", "PUT /galene-api/v0/.groups/hx HTTP/1.1\r\nHost: x\r\nTransfer-Encoding: chunked\r\nContent-Type: application/json\r\nAuthorization: " + h.srv.AdminAuth()["Authorization"] + "\r\n\r\n2\r\n{}\r\n0\r\n\r\n"},
+		{"whip-empty-offer", "POST /group/hx/.whip HTTP/1.1\r\nHost: x\r\nContent-Type: application/sdp\r\nContent-Length: 0\r\n\r\n"},
+		{"negative-content-length", "POST /group/hx/.whip HTTP/1.1\r\nHost: x\r\nContent-Type: application/sdp\r\nContent-Length: -5\r\n\r\n"},
+		{"huge-content-length", "POST /group/hx/.whip HTTP/1.1\r\nHost: x\r\nContent-Type: application/sdp\r\nContent-Length: 99999999999999999999\r\n\r\n"},
+		{"ws-upgrade", "GET /ws HTTP/1.1\r\nHost: galene.test\r\nUpgrade: websocket\r\nConnection: Upgrade\r\nSec-WebSocket-Version: 13\r\nSec-WebSocket-Key: dGhlIHNhbXBsZSBub25jZQ==\r\n\r\n"},
+		{"ws-upgrade-foreign-origin", "GET /ws HTTP/1.1\r\nHost: galene.test\r\nUpgrade: websocket\r\nConnection: Upgrade\r\nSec-WebSocket-Version: 13\r\nSec-WebSocket-Key: dGhlIHNhbXBsZSBub25jZQ==\r\nOrigin: https://evil.example\r\n\r\n"},
+		{"ws-upgrade-http-1.0", "GET /ws HTTP/1.0\r\nUpgrade: websocket\r\nConnection: Upgrade\r\n\r\n"},
+		{"ws-upgrade-with-body", "GET /ws HTTP/1.1\r\nHost: galene.test\r\nUpgrade: websocket\r\nConnection: Upgrade\r\nSec-WebSocket-Version: 13\r\nSec-WebSocket-Key: dGhlIHNhbXBsZSBub25jZQ==\r\nContent-Length: 5\r\n\r\nhello"},
+		{"ws-upgrade-post-with-body", "POST /ws HTTP/1.1\r\nHost: galene.test\r\nUpgrade: websocket\r\nConnection: Upgrade\r\nSec-WebSocket-Version: 13\r\nSec-WebSocket-Key: dGhlIHNhbXBsZSBub25jZQ==\r\nContent-Length: 5\r\n\r\nhello"},
+		{"very-deep-path", "GET /" + strings.Repeat("a/", 4000) + " HTTP/1.1\r\nHost: x\r\n\r\n"},
+		{"40000-headers", "GET / HTTP/1.1\r\nHost: x\r\n" + strings.Repeat("X-H: v\r\n", 40000) + "\r\n"},
+		{"conditional-range-static", "GET /index.html HTTP/1.1\r\nHost: x\r\nIf-Modified-Since: yesterday\r\nIf-None-Match: \"\x01\"\r\nRange: bytes=0-,0-,0-,0-,0-,0-,0-,0-,0-,0-,0-,0-\r\n\r\n"},
+		{"tls-client-hello", "\x16\x03\x01\x02\x00\x01\x00\x01\xfc\x03\x03" + strings.Repeat("\x00", 40) + "\r\n\r\n"},
+		{"leading-crlf", "\r\n\r\nGET / HTTP/1.1\r\nHost: x\r\n\r\n"},
+		{"bad-percent-escape", "GET /%zz HTTP/1.1\r\nHost: x\r\n\r\n"},
+		{"pct-dotdot-group", "GET /group/%2e%2e/%2e%2e/ HTTP/1.1\r\nHost: x\r\n\r\n"},
+		{"head-recording-bad-range", "HEAD /recordings/hx/rec1.webm HTTP/1.1\r\nHost: x\r\nAuthorization: " + vsrv.Basic("recorder", "pw-rec")["Authorization"] + "\r\nRange: bytes=3-1\r\n\r\n"},
+		{"whip-delete-empty-id", "DELETE /group/whipg/x/.whip/ HTTP/1.1\r\nHost: x\r\n\r\n"},
+		{"whip-patch-slash-id", "PATCH /group/whipg/x/.whip// HTTP/1.1\r\nHost: x\r\nContent-Length: 0\r\n\r\n"},
 	}
-	req := reqs[i%len(reqs)]
+	name, req := reqs[i%len(reqs)].name, reqs[i%len(reqs)].req
 	_ = r
-	h.run.Note(fmt.Sprintf("http malformed #%d: %s", i%len(reqs), abbrevS(fmt.Sprintf("%q", req))))
+	h.run.Note(fmt.Sprintf("http malformed %s: %s", name, abbrevS(fmt.Sprintf("%q", req))))
 	conn, err := h.srv.RawConn()
 	if err != nil {
 		h.run.Inconclusive("harness-dial: " + err.Error())
@@ -641,7 +641,7 @@ func (h *httpWorld) malformed(i int) {
 	h.run.Eval(1)
 	h.run.Count("http_requests", 1)
 	h.run.Count("http_malformed_requests", 1)
-	c := httpCase{N: -1 - i%len(reqs), Method: "MALFORMED", Shape: fmt.Sprintf("malformed#%d", i%len(reqs)), Raw: true}
+	c := httpCase{N: -1 - i%len(reqs), Method: "HANDWRITTEN", Shape: name, Raw: true}
 	if err != nil && line == "" {
 		h.report(c, shapeT{name: c.Shape}, err.Error(), req, err)
 		return
@@ -780,12 +780,12 @@ func (h *httpWorld) whipSession(i int) {
 
 var rePanicServing = regexp.MustCompile(`http: panic serving [^\n]*`)
 
-// scanLog turns every "http: panic serving" entry of the server log into a violation.
-func (h *httpWorld) scanLog() {
-	b, err := os.ReadFile(h.srv.LogFile)
+// scanLog turns every "http: panic serving" entry of a server log into a violation.  The
+// parent calls it after the child has ended, so that a crash elsewhere does not hide them.
+func scanLog(run *vk.Run, logFile string, batch uint64, pass int) {
+	b, err := os.ReadFile(logFile)
 	if err != nil {
-		h.run.Inconclusive("cannot read the server log: " + err.Error())
-		return
+		return // the child never got as far as starting the server; the parent reports that
 	}
 	text := string(b)
 	for _, loc := range rePanicServing.FindAllStringIndex(text, -1) {
@@ -799,7 +799,7 @@ func (h *httpWorld) scanLog() {
 		}
 		frame := "unknown-frame"
 		for _, l := range strings.Split(entry, "\n")[1:] {
-			if strings.HasPrefix(l, "20") && strings.Contains(l, "http: panic serving") {
+			if strings.Contains(l, "http: panic serving") {
 				break
 			}
 			if strings.Contains(l, "jech/galene/") && !strings.HasPrefix(l, "\t") && strings.Contains(l, "(") {
@@ -809,17 +809,15 @@ func (h *httpWorld) scanLog() {
 				break
 			}
 		}
-		h.mu.Lock()
-		nr := append([]string(nil), h.noRsp...)
-		h.mu.Unlock()
 		msg := headline
 		if i := strings.Index(msg, ": "); i >= 0 {
 			msg = msg[i+2:]
 		}
-		h.run.Violation("http-panic:"+frame, "a request handler panicked (net/http recovered it, the client got no response): "+msg+" at "+frame,
-			map[string]any{"tier": "http", "batch": h.batch, "pass": h.pass, "log_entry": entry[:min(len(entry), 3500)], "requests_without_response": nr})
+		run.Violation("http-panic:"+frame, "a request handler panicked (net/http recovered it, the client got no response): "+msg+" at "+frame,
+			map[string]any{"tier": "http", "batch": batch, "pass": pass, "log_entry": entry[:min(len(entry), 3500)],
+				"note": "the request is the one reported as http-no-response by the same batch"})
 	}
-	h.run.Count("server_log_scans", 1)
+	run.Count("server_log_scans", 1)
 }
 
 func (h *httpWorld) runAll(cases []httpCase, malformed, whip int) {
